@@ -81,6 +81,23 @@ fn complete_case<G: HG + group::GroupEncoding, const N: usize>(ctx: &mut Ctx, id
                 }
                 let _ = sp_verify_check::<N>(ctx, kp.public_key(), &kpd.pk, &pd, &c, Some(true), "honest");
             }
+            // the blinding factor the builder draws first, solved against the secret key: bf = -(x + <y, m>) makes the shown
+            // sigma2' the identity (and X~ + C the identity) - a valid proof all the same; also bf = 1 - (x + <y, m>)
+            // (sigma2' = sigma1') and bf = -<y, m> (sigma2' = x * sigma1')
+            if k == 0 {
+                for (what, bf) in [("sigma2-identity", -e), ("sigma2-equals-sigma1", Scalar::one() - e), ("commitment-is-bf-free", kpd.x - e)] {
+                    ctx.forced_next = vec![bf];
+                    if let Some((proof, pd, _w, c, _r)) = sp_honest::<N>(ctx, kp.public_key(), &kpd.pk, &ms, &sig, &[None; N], ChalMode::Derived, None) {
+                        let c2 = ChallengeBuilder::new().with(&proof).finish();
+                        ctx.count(&format!("solved-blinding-factor:{}", what));
+                        if !proof.verify_knowledge_of_signature(kp.public_key(), c2) {
+                            ctx.violation(&format!("honest signature proof rejected when the drawn blinding factor is solved against the key ({})", what), json!({"class": "honest-signature-proof-rejected-solved-bf", "N": N, "what": what, "ms": hex_list(&ms)}));
+                        }
+                        let _ = sp_verify_check::<N>(ctx, kp.public_key(), &kpd.pk, &pd, &c, Some(true), &format!("honest-solved-bf-{}", what));
+                    }
+                    ctx.forced_next.clear();
+                }
+            }
         }
     }
 }
